@@ -674,10 +674,15 @@ fn gen_level(rng: &mut Rng, n: &mut usize, shorts: &mut Vec<char>, prefix: &str,
         }
         c.args.push(a);
     }
-    // conditional default on a referent without defaults
-    if rng.chance(1, 3) {
-        let referents: Vec<String> = c.args.iter().filter(|a| a.action.takes_values() && a.default_values.is_empty() && !a.global).map(|a| a.id.clone()).collect();
-        let targets: Vec<usize> = c.args.iter().enumerate().filter(|(_, a)| a.action.takes_values() && !a.global).map(|(i, _)| i).collect();
+    // conditional defaults on referents without defaults (up to two entries on one argument: the first
+    // satisfied entry wins)
+    for _ in 0..rng.weighted(&[4, 3, 2]) {
+        // no chains: a referent never has a default of any kind (clap looks the referent up with
+        // `matcher.get`, so a referent that is itself defaulted counts as present depending on argument
+        // order -- outside the statement), and a target is never a referent
+        let used_as_referent: Vec<String> = c.args.iter().flat_map(|a| a.default_ifs.iter().map(|d| d.0.clone())).collect();
+        let referents: Vec<String> = c.args.iter().filter(|a| a.action.takes_values() && a.default_values.is_empty() && a.default_ifs.is_empty() && !a.global).map(|a| a.id.clone()).collect();
+        let targets: Vec<usize> = c.args.iter().enumerate().filter(|(_, a)| a.action.takes_values() && !a.global && !used_as_referent.contains(&a.id)).map(|(i, _)| i).collect();
         if let (Some(r), Some(t)) = (rng.pick_opt(&referents).cloned(), rng.pick_opt(&targets).copied()) {
             if c.args[t].id != r {
                 let dv = gen_c06_value(rng, &c.args[t], 0);
